@@ -471,6 +471,15 @@ func initModels() {
 		// equal slices have equal big-endian values and equal bytes at every accessed index (instantiated on demand by be)
 		be := c.uf("be", []string{arrSort("Int"), "Int", "Int"}, "Int")
 		c.assume(reach, implies(r, eq(app(be, aa, a[1], a[2]), app(be, ba, b[1], b[2]))))
+		// short slices (e.g. a Location): exact meaning for lengths up to 4
+		{
+			var parts []string
+			for k := int64(0); k < 4; k++ {
+				ks := num(k)
+				parts = append(parts, implies(lt(ks, a[2]), eq(c.sel(aa, addOff(a[1], ks)), c.sel(ba, addOff(b[1], ks)))))
+			}
+			c.assume(reach, implies(and(eq(a[2], b[2]), le(a[2], "4")), eq(r, and(parts...))))
+		}
 		if na, ok := litInt(a[2]); ok && na <= 64 {
 			var parts []string
 			for k := int64(0); k < na; k++ {
